@@ -15,6 +15,9 @@ DrivingForce == {"solver", "solver_inner", "permeate_composition", "separation_f
                  "ideal_iso", "ideal_noniso", "nonideal_iso", "nonideal_noniso", "pure_flux", "curve_from_fluxes"}
 UsesModel    == {"activity", "partial_pressures", "solver", "permeate_composition", "ideal_curve", "ideal_iso", "ideal_noniso"}
 Entries      == DrivingForce \cup UsesModel \cup {"mixture_construct", "curve_construct", "activation_energy", "get_permeance"}
+\* entry points that need the membrane's activation energy: the two membrane methods, and the non-ideal models when they
+\* work from a single curve at a temperature the feed does not stay at
+NeedsEa      == {"activation_energy", "get_permeance", "nonideal_curve", "nonideal_iso", "nonideal_noniso"}
 Models       == {"NRTL", "UNIQUAC"}
 
 Fields == {"hasTperm", "haspperm", "hasNRTL", "hasUQ", "hasUQconst", "hasFlux", "hasPerm", "twoExps", "statedEa"}
@@ -27,7 +30,7 @@ Valid(entry, model, s) ==
   /\ (entry \in UsesModel => /\ (model = "NRTL" => s.hasNRTL)
                              /\ (model = "UNIQUAC" => (s.hasUQ /\ s.hasUQconst)))
   /\ (entry = "curve_construct" => (s.hasFlux \/ s.hasPerm))
-  /\ (entry \in {"activation_energy", "get_permeance"} => (s.twoExps \/ s.statedEa))
+  /\ (entry \in NeedsEa => (s.twoExps \/ s.statedEa))
 
 Accepts(entry, model, s) ==
   IF Deviation = "both_means_temperature" /\ entry \in DrivingForce /\ s.hasTperm /\ s.haspperm
@@ -50,7 +53,7 @@ Class(entry) ==
   (IF entry = "mixture_construct" THEN {"no_params"} ELSE {}) \cup
   (IF entry \in UsesModel THEN {"model_params_missing", "component_constants_missing"} ELSE {}) \cup
   (IF entry = "curve_construct" THEN {"neither_flux_nor_permeance"} ELSE {}) \cup
-  (IF entry \in {"activation_energy", "get_permeance"} THEN {"underdetermined_ea"} ELSE {})
+  (IF entry \in NeedsEa THEN {"underdetermined_ea"} ELSE {})
 Rows == {r \in [entry : Entries, class : {"both_permeate", "no_params", "model_params_missing", "component_constants_missing",
                                            "neither_flux_nor_permeance", "underdetermined_ea"}, model : Models] :
            /\ r.class \in Class(r.entry)
